@@ -36,7 +36,7 @@ def main():
         try:
             ap = sh(f"git -C {wt} apply {d}/patch.diff")
             if ap.returncode != 0:
-                rows.append((sid, meta, "patch does not apply: " + ap.stderr[:100], {}))
+                rows.append((sid, meta, "patch does not apply: " + ap.stderr[:100].replace("\n", " "), {}))
                 continue
             sh(f"cp {d}/demo.py {wt}/demo_seed.py")
             demo = sh(f"cd {wt} && PYTHONPATH={wt} timeout 600 /venv/bin/python {wt}/demo_seed.py", env=dict(os.environ, PYTHONPATH=wt))
